@@ -23,16 +23,17 @@ mechanism (block hook / PauseResponse signal / paused by the request hook) and e
 
 **Requestor pauses** (`GS.PauseResume` on top of `GS.Requestor` / `GS.Loader`, tied by the streams
 `loader`, `requestor` and the model-compared stream `reqpause`).  The sentence is FALSE of the code for
-requestor pauses when the resume is early relative to in-flight messages — two known findings,
+requestor pauses when the resume is early relative to in-flight messages — known findings,
 reproduced on the real code by the `pauseres` harness and here on the model:
 
 * `requestor_stale_response_counterexample` — a message of the cancelled response that reaches the
   requestor after the resumed request has gone online is ingested into the new response (responses
   carry only the request ID): the request fails with RemoteIncorrectResponseError (known finding
   `stale-response-after-resume`);
-* known finding `resume-overtakes-cancel` is on the responder (the resumed request re-uses the ID of
-  the response whose task is still being cancelled, `responsemanager.newRequest` /
-  `finishTask`): outside this model, replayed by the harness only;
+* the former known finding `resume-overtakes-cancel` was on the responder (the resumed request re-uses
+  the ID of the response whose task is still being cancelled, `responsemanager.newRequest` /
+  `finishTask`): outside this model; repaired in /repo 0bfe189, the harness cases now pass and a
+  recurrence is a violation;
 * `requestor_skip_prefix_counterexample` — the C02 finding `skip-prefix-mismatch` met on resume.
 
 Proved for every link tree / store / pause point / operation history:
@@ -677,8 +678,8 @@ A resume falls in exactly one of three cases, by what the resumed executor does 
      With `reopen_complete`, case (c) follows from the ingredients proved here: `driveP_split` (the run
      up to the pause is the uninterrupted run), `stale_dropped_run` (messages of the cancelled
      response that arrive while paused are dropped), `reopen_fresh` (the re-opened loader starts from an
-     empty queue and a fresh verifier over the whole record), `pause_effects`.  The two known findings
-     (`stale-response-after-resume`, `resume-overtakes-cancel`) are the histories excluded by
+     empty queue and a fresh verifier over the whole record), `pause_effects`.  The known finding
+     `stale-response-after-resume` (and the repaired `resume-overtakes-cancel`) are the histories excluded by
      "the rest of `first` never arrives after the loader re-opened".
 -/
 
